@@ -6,6 +6,7 @@ import (
 	"encoding/pem"
 	"fmt"
 	dsig "github.com/russellhaering/goxmldsig"
+	"math"
 	"strings"
 	"testing"
 
@@ -64,7 +65,7 @@ func totality(sp h.SPConfig, input string) (*h.Violation, []string) {
 }
 
 // c09Variants: number of SP configurations (c09Config 0..7 plus the odd-certificate ones of c09Build).
-const c09Variants = 14
+const c09Variants = 18
 
 // c09Build builds configuration i: 0..7 as c09Config, 8.. SPs whose OWN certificate is unusable in some way
 // (PEM text instead of DER, garbage, empty, absent) with and without certificate validation — the decoders
@@ -94,6 +95,12 @@ func c09Build(i int) *saml2.SAMLServiceProvider {
 		sp.ValidateEncryptionCert = true
 		sp.IDPCertificateStore = h.Store([]h.CertRef{{Key: "T1", Window: "wide"}, {Key: "T2", Window: "wide"}, {Key: "T3", Window: "wide"}})
 		sp.SPKeyStore = &fixedStore{key: k.RSA, cert: k.DER["wide"][:len(k.DER["wide"])/2]}
+	case 14, 15, 16, 17: // boundary values of the inflation limit (math.MaxInt64 is the natural "no limit")
+		sp.MaximumDecompressedBodySize = []int64{math.MaxInt64, math.MinInt64, -2, -1}[i-14]
+		sp.SPKeyStore = h.TLSStore(h.CertRef{Key: "E1", Window: "wide"})
+		if i%2 == 0 {
+			sp.SkipSignatureValidation = true
+		}
 	case 13: // PEM through the field, validation on, no clock
 		sp.ValidateEncryptionCert = true
 		sp.Clock = nil
@@ -411,7 +418,7 @@ type C09Cipher struct {
 var dataAlgIDs = append(append([]string{}, h.DataAlgs...), types.MethodTripleDESCBC, "urn:unknown:alg", "")
 
 func genC09Cipher(t *rapid.T) C09Cipher {
-	c := C09Cipher{Cfg: rapid.SampledFrom([]int{1, 2, 3, 6, 1, 2, 3, 6, 8, 9, 12, 13}).Draw(t, "cfg"), Signed: rapid.IntRange(0, 3).Draw(t, "signed") == 0}
+	c := C09Cipher{Cfg: rapid.SampledFrom([]int{1, 2, 3, 6, 1, 2, 3, 6, 8, 9, 12, 13, 14, 15, 16, 17}).Draw(t, "cfg"), Signed: rapid.IntRange(0, 3).Draw(t, "signed") == 0}
 	to := h.CertRef{Key: "E1", Window: "wide"}
 	e := h.EncSpec{To: to, Digest: rapid.SampledFrom(append(h.DigestChoices, "urn:unknown:digest")).Draw(t, "digest")}
 	e.DataAlg = rapid.SampledFrom(dataAlgIDs).Draw(t, "dataAlg")
